@@ -526,4 +526,106 @@ func (c *conn) Close() error {""")]),
 			case responses <- fcall:""", """			case <-t.ctx.Done():
 				return
 			case responses <- fcall:""")]),
+
+ # ---- C05
+ ("c05-no-notag-skip", "C05", [("transport.go", """		hint++
+		if hint == NOTAG {
+			hint = 0
+		}
+""", """		hint++
+""")]),
+ ("c05-route-by-selected", "C05", [("transport.go", """			req, ok := outstanding[b.Tag]
+			if !ok {""", """			req, ok := outstanding[selected]
+			if !ok {""")]),
+ ("c05-register-after-write", "C05", [("transport.go", """			outstanding[selected] = req
+			fcall := newFcall(selected, req.message)
+""", """			fcall := newFcall(selected, req.message)
+			defer func() { outstanding[selected] = req }()
+""")]),
+ ("c05-reader-touches-map", "C05", [("transport.go", """				log.Println("p9p: fatal error reading msg:", err)
+				return""", """				log.Println("p9p: fatal error reading msg:", err, len(outstanding))
+				for k := range outstanding {
+					delete(outstanding, k)
+				}
+				return""")]),
+ ("c05-no-delete-on-reply", "C05", [("transport.go", """			delete(outstanding, b.Tag)
+
+			req.response <- b""", """			req.response <- b""")]),
+ ("c05-tag-returned-when-exists", "C05", [("transport.go", """		if _, exists := m[hint]; !exists {
+			return hint, nil
+		}""", """		if _, exists := m[hint+1]; !exists {
+			return hint, nil
+		}""")]),
+ ("c05-rerror-returned-as-message", "C05", [("transport.go", """			return nil, respmesg
+		}""", """			return respmesg, nil
+		}""")]),
+ ("c05-second-writer", "C05", [("transport.go", """func (t *transport) Close() error {
+	t.close()
+""", """func (t *transport) Close() error {
+	t.ch.WriteFcall(t.ctx, newFcall(NOTAG, MessageTflush{}))
+	t.close()
+""")]),
+ ("c05-wrong-message", "C05", [("transport.go", "fcall := newFcall(selected, req.message)", "fcall := newFcall(selected+1, req.message)")]),
+ # ---- C06
+ ("c06-reply-tag-zero", "C06", [("serveconn.go", "					resp = newFcall(req.Tag, msg)", "					resp = newFcall(Tag(len(tags)), msg)")]),
+ ("c06-no-duptag-branch", "C06", [("serveconn.go", """			if _, ok := tags[req.Tag]; ok {
+				select {
+				case responses <- newErrorFcall(req.Tag, ErrDuptag):
+					// Send to responses, bypass tag management.
+				case <-c.ctx.Done():
+					return c.ctx.Err()
+				case <-c.closed:
+					return c.err
+				}
+				continue
+			}
+""", "")]),
+ ("c06-handle-twice", "C06", [("serveconn.go", """					msg, err := c.handler.Handle(ctx, req.Message)
+					if err != nil {""", """					msg, err := c.handler.Handle(ctx, req.Message)
+					if err == ErrTimeout {
+						msg, err = c.handler.Handle(ctx, req.Message)
+					}
+					if err != nil {""")]),
+ ("c06-remove-calls-clunk", "C06", [("ssesssion.go", "if err := session.Remove(ctx, msg.Fid); err != nil {", "if err := session.Clunk(ctx, msg.Fid); err != nil {")]),
+ ("c06-stat-returns-rwstat", "C06", [("ssesssion.go", """		return MessageRstat{
+			Stat: dir,
+		}, nil""", """		_ = dir
+		return MessageRwstat{}, nil""")]),
+ ("c06-error-text-lost", "C06", [("fcall.go", "msg = MessageRerror{Ename: v.Error()}", "msg = MessageRerror{Ename: \"error\"}")]),
+ ("c06-duptag-wrong-tag", "C06", [("serveconn.go", "case responses <- newErrorFcall(req.Tag, ErrDuptag):", "case responses <- newErrorFcall(NOTAG, ErrDuptag):")]),
+ ("c06-error-reply-uses-msg", "C06", [("serveconn.go", "					resp = newErrorFcall(req.Tag, err)", "					resp = newErrorFcall(req.Tag, ErrBotch)")]),
+ # ---- C07
+ ("c07-rflush-before-remove", "C07", [("serveconn.go", """				var resp *Fcall
+				if tags.remove(msg.Oldtag) {
+					resp = newFcall(req.Tag, MessageRflush{})
+				} else {
+					resp = newErrorFcall(req.Tag, ErrUnknownTag)
+				}
+""", """				resp := newFcall(req.Tag, MessageRflush{})
+				defer tags.remove(msg.Oldtag)
+""")]),
+ ("c07-forward-absent-tags", "C07", [("serveconn.go", """			if !ok || active.request != done.request {
+				// The tag is no longer active, or has been reused by a newer
+				// request. Likely a flushed message.
+				continue
+			}
+""", """			if !ok {
+				active = &activeRequest{ctx: c.ctx, request: done.request}
+			}
+			if active.request != done.request {
+				continue
+			}
+""")]),
+ ("c07-no-reply-unknown-oldtag", "C07", [("serveconn.go", """				} else {
+					resp = newErrorFcall(req.Tag, ErrUnknownTag)
+				}
+""", """				} else {
+					continue
+				}
+""")]),
+ ("c07-remove-no-cancel", "C07", [("serveconn.go", """		active.cancel() // propagate cancellation to callees
+		delete(tags, t)""", """		_ = active
+		delete(tags, t)""")]),
+ ("c07-flush-wrong-oldtag", "C07", [("serveconn.go", "if tags.remove(msg.Oldtag) {", "_ = msg\n\t\t\t\tif tags.remove(req.Tag) {")]),
+ ("c07-identity-by-tag-only", "C07", [("serveconn.go", "if !ok || active.request != done.request {", "if !ok || active.request.Tag != done.request.Tag {")]),
 ]
